@@ -128,6 +128,10 @@ class CacheDriver:
     def step(self, op, *args, **kw):
         """Run one call on both sides.  Raises Mismatch on disagreement and
         model.Ambiguous when an expiry instant fell inside the op's window."""
+        if type(kw.get('now')) is tuple:      # ('NOW+', dt): an explicit instant relative to the virtual clock
+            kw = dict(kw, now=self.clock.now_peek() + kw['now'][1])
+        if self.kind == 'fanout' and op == 'expire':
+            kw = {}                           # FanoutCache.expire() takes no `now`
         self.nops += 1
         self.history.append((op, args, kw))
         if len(self.history) > 4000:
